@@ -26,7 +26,7 @@ pub const NN: usize = 16;
 
 pub const NAMES: [&str; 10] = ["a", "b", "x", "value", "r#type", "_0", "next", "T", "Inner", "k9"];
 pub const PATH_SEGS: [&str; 8] = ["m", "n", "deep", "Node", "Other", "r#mod", "List", "Tree"];
-pub const TYPE_NAMES: [&str; 6] = ["T", "Box<Self>", "Vec<T>", "u8", "&'static str", "<T as Tr>::A"];
+pub const TYPE_NAMES: [&str; 7] = ["T", "Box<Self>", "Vec<T>", "u8", "&'static str", "<T as Tr>::A", ""];
 pub const DOCS: [&str; 6] = ["doc", "", " leading space", "two\nlines", "üñí", "`code`"];
 pub const PARAM_NAMES: [&str; 5] = ["T", "U", "E", "K", "V"];
 
@@ -134,7 +134,7 @@ pub trait TyVisitor {
     fn visit<T: TypeInfo + ?Sized + 'static>(self) -> Self::Out;
 }
 
-pub const N_SHAPES: u8 = 51;
+pub const N_SHAPES: u8 = 60;
 const DELTAS: [usize; 3] = [0, 1, 5];
 
 fn with_shape_jk<const J: usize, const K: usize, V: TyVisitor>(shape: u8, v: V) -> V::Out {
@@ -187,6 +187,16 @@ fn with_shape_jk<const J: usize, const K: usize, V: TyVisitor>(shape: u8, v: V) 
         // array lengths beyond 16 bits (the elements are zero-sized, so the type costs nothing)
         49 => v.visit::<[N<J>; 65537]>(),
         50 => v.visit::<[A<J>; 4_000_000_000]>(),
+        // more alias families and near-identical shapes
+        51 => v.visit::<Cow<'static, str>>(),
+        52 => v.visit::<Rc<str>>(),
+        53 => v.visit::<VecDeque<u8>>(),
+        54 => v.visit::<&'static [u8]>(),
+        55 => v.visit::<Box<[u8]>>(),
+        56 => v.visit::<Option<String>>(),
+        57 => v.visit::<Option<&'static str>>(),
+        58 => v.visit::<[N<J>; 4]>(),
+        59 => v.visit::<(u8, N<J>)>(),
         _ => v.visit::<u64>(),
     }
 }
@@ -371,6 +381,15 @@ pub fn ty_of(t: &Target) -> Ty {
         48 => Ty::Box(b(Ty::Twin(0))),
         49 => Ty::ArrN(65537, b(x())),
         50 => Ty::ArrN(4_000_000_000, b(Ty::A(j))),
+        51 => Ty::Cow(b(Ty::Str)),
+        52 => Ty::Rc(b(Ty::Str)),
+        53 => Ty::VecDeque(b(Ty::U8)),
+        54 => Ty::Ref(b(Ty::Slice(b(Ty::U8)))),
+        55 => Ty::Box(b(Ty::Slice(b(Ty::U8)))),
+        56 => Ty::Option(b(Ty::String)),
+        57 => Ty::Option(b(Ty::Ref(b(Ty::Str)))),
+        58 => Ty::ArrN(4, b(x())),
+        59 => Ty::Tup(vec![Ty::U8, x()]),
         _ => Ty::U64,
     }
 }
@@ -677,7 +696,8 @@ pub mod gen {
                 2 => 26u8..38,
                 2 => 38u8..44,
                 1 => 44u8..49,
-                1 => 49u8..N_SHAPES,
+                1 => 49u8..51,
+                2 => 51u8..N_SHAPES,
             ],
             0u8..NN as u8,
             0u8..3,
@@ -691,7 +711,7 @@ pub mod gen {
     }
 
     pub fn field() -> impl Strategy<Value = FieldSpec> {
-        (0u8..10, target(), prop::option::of(0u8..6), docs_idx(), prop::bool::weighted(0.08))
+        (0u8..10, target(), prop::option::of(0u8..7), docs_idx(), prop::bool::weighted(0.08))
             .prop_map(|(name, target, type_name, docs, compact)| FieldSpec { name, target, type_name, docs, compact })
     }
 
